@@ -24,6 +24,7 @@ type fSpec struct {
 	Name     string   `json:"name"`
 	Kind     string   `json:"kind"`     // stay | err | nil | panic | done | done-late
 	Fails    int      `json:"fails"`    // how many incarnations fail before one stays up
+	Then     string   `json:"then,omitempty"` // what the incarnations after the scripted failures do: "" (stay) | done-late
 	AfterMs  int      `json:"after_ms"` // failure time after start
 	ExitMs   int      `json:"exit_ms"`  // latency between cancellation (or SignalDone) and return
 	Groups   [][]int  `json:"groups"`   // indices into Kids, one list per RunGroup call
@@ -99,6 +100,14 @@ func (w *fWorld) service(sp *fSpec) Runnable {
 			}
 		}
 		Signal(ctx, SignalHealthy)
+		if !failing && sp.Then == "done-late" {
+			Signal(ctx, SignalDone)
+			time.Sleep(time.Duration(sp.ExitMs) * time.Millisecond)
+			w.mu.Lock()
+			st.Done++
+			w.mu.Unlock()
+			return nil
+		}
 		if sp.Kind == "done" || sp.Kind == "done-late" {
 			Signal(ctx, SignalDone)
 			if sp.Kind == "done-late" {
@@ -250,9 +259,12 @@ func fRun(sp *fSpec) (map[string]*fStat, []string, map[string]interface{}) {
 			if orphanable[s.dn] {
 				continue // looked at separately below
 			}
-			if s.Kind == "done" || s.Kind == "done-late" {
+			if s.Kind == "done" || s.Kind == "done-late" || s.Then == "done-late" {
 				if st.Live != 0 && s.Kind == "done" {
 					return false, s.dn + " (done) still live"
+				}
+				if s.Then == "done-late" && (s.failures < s.Fails || st.Done == 0 || st.Live != 0) {
+					return false, fmt.Sprintf("%s has not completed yet (failed %d of %d times, %d live)", s.dn, s.failures, s.Fails, st.Live)
 				}
 				continue
 			}
@@ -304,6 +316,9 @@ func fRun(sp *fSpec) (map[string]*fStat, []string, map[string]interface{}) {
 	w.mu.Lock()
 	for _, s := range all {
 		if s.Kind != "done" && s.Kind != "done-late" {
+			continue
+		}
+		if s.Fails > 0 {
 			continue
 		}
 		pdn := s.dn[:strings.LastIndex(s.dn, ".")]
@@ -364,6 +379,22 @@ func fRun(sp *fSpec) (map[string]*fStat, []string, map[string]interface{}) {
 	return w.stats, mon, info
 }
 
+// crafted timings (the random trees rarely hit them): exits of completed services that overlap a failure above them
+func fCrafted() map[string]*fSpec {
+	return map[string]*fSpec{
+		// p fails while its child c, which has signalled Done, is still on its way out: the restart scan runs in between, finds the
+		// subtree not yet exited, and p must be started again once c has returned (c's nil return is the only event that makes it so)
+		"failure-above-lingering-done": {Name: "root", Kind: "stay", Groups: [][]int{{0}}, Kids: []*fSpec{
+			{Name: "p", Kind: "err", Fails: 1, AfterMs: 15, Groups: [][]int{{0}}, Kids: []*fSpec{
+				{Name: "c", Kind: "done-late", ExitMs: 120}}}}},
+		// c fails once and is restarted on its own (its node object is re-used); its second incarnation signals Done and lingers
+		// for 1.6 s; inside that window its parent p fails: p's subtree must not be restarted before the lingering c has returned
+		"failure-above-restarted-lingering-done": {Name: "root", Kind: "stay", Groups: [][]int{{0}}, Kids: []*fSpec{
+			{Name: "p", Kind: "err", Fails: 1, AfterMs: 1300, Groups: [][]int{{0}}, Kids: []*fSpec{
+				{Name: "c", Kind: "err", Fails: 1, AfterMs: 5, Then: "done-late", ExitMs: 1600}}}}},
+	}
+}
+
 func TestVerifC18Free(t *testing.T) {
 	r := &vrng{s: verifSeed() ^ 0xc18b}
 	o := verifOut(t)
@@ -374,6 +405,21 @@ func TestVerifC18Free(t *testing.T) {
 	}
 	var wg sync.WaitGroup
 	sem := make(chan struct{}, 24)
+	ci := 0
+	for nm, sp := range fCrafted() {
+		ci++
+		wg.Add(1)
+		sem <- struct{}{}
+		go func(sc int, nm string, sp *fSpec) {
+			defer wg.Done()
+			defer func() { <-sem }()
+			stats, mon, info := fRun(sp)
+			if mon == nil {
+				mon = []string{}
+			}
+			o.emit(map[string]interface{}{"k": "free", "sc": sc, "script": nm, "late": false, "spec": sp, "stats": stats, "mon": mon, "info": info})
+		}(-ci, nm, sp)
+	}
 	for sc := 0; sc < n; sc++ {
 		late := sc%4 == 3 // every fourth scenario may contain services that return late after SignalDone
 		sp := fGen(&vrng{s: r.next()}, 0, "root", late)
